@@ -162,7 +162,7 @@ func VpHSubcompact() {
 			}
 		}
 		if !kept[i] {
-			vpAssert(vpOr(isDropped, vpOr(stopBefore, vpAnd(below, dead(e, now)))), "C13:sc.retention-keeps-promised-versions")
+			vpAssert(vpOr(isDropped, vpOr(stopBefore, vpAnd(below, dead(e, now)))), "C13,C31:sc.retention-keeps-promised-versions")
 		}
 		if kept[i] && e.meta&bitDelete > 0 {
 			vpCover("sc.tombstone-kept")
